@@ -26,6 +26,10 @@ DECIDING = ["documents_compared", "core_searches"]
 SCRUB = "! Sensitive line SCRUBBED by netconan"
 
 
+HEADERS = ["key chain CORE-KC", "router bgp 65001", "interface GigabitEthernet0/1", "line vty 0 4", "vrf definition MGMT", "policy-options {",
+           "route-map RM-OUT permit 10", "crypto keyring KR", "aaa group server tacacs+ TG", "banner motd ^C", "snmp {", "system {", "!"]
+# configuration vocabulary that netconan (at the pinned commit) treats as an ordinary secret value - fixed data, checked there
+WORDLIKE = ["no-peer", "graceful-shutdown", "llgr-stale", "no-llgr", "no-export-subconfed", "nopeer"]
 LEAD_CTX = ['"', "'", "{", ":", 'something " ', "something ' ", "something { ", "something : ", "[", "(",
             # a statement quoted inside another command (a description, a remark, a negation, a template action)
             "description ", "remark ", "no ", "do ", "! ", "# ", "description \"", "remark: "]
@@ -131,7 +135,9 @@ def cases(ctx):
                 continue
             yield {"kind": "doc", "sseed": rng.getrandbits(32), "v1": rng.getrandbits(32), "v2": rng.getrandbits(32),
                    "salt": rng.choice(["saltForTest", "x", "Q", "zz9", "netconan"]),
-                   "spec": [{"form": fid, "cls": [cls] * S.nslots(S.BY_ID[fid]), "ids": list(range(S.nslots(S.BY_ID[fid])))}]}
+                   "spec": [{"form": fid, "cls": [cls] * S.nslots(S.BY_ID[fid]), "ids": list(range(S.nslots(S.BY_ID[fid])))}],
+                   # the first variant of every (form, class): the statement exactly as a device prints it, indented under a block header
+                   "plainctx": rep == 0}
     # a secret that straddles a multiple of 8192 characters on a very long line
     simple = [f for f in S.CATALOGUE if S.nslots(f) == 1 and f["mode"] == "replace" and not f["id"].startswith(("aws", "catchall"))]
     for _ in range(ctx.per_shard(ctx.pick(24, 1200))):
@@ -184,9 +190,16 @@ def make_texts(case):
             # form feed, file/group/record separator, NEL, line/paragraph separator, no-break space)
             "xsep": (srng.choice(["\x0b", "\x0c", "\x1c", "\x1d", "\x1e", "\x85", "\u2028", "\u2029", "\xa0", "\t"]), srng.randrange(6))
             if srng.random() < 0.12 else None,
-            "special": srng.choice([None] * 7 + ["short", "dollar-word", "ctxsub", "recur-user", "colon-octets"]),
+            "special": srng.choice([None] * 7 + ["short", "dollar-word", "ctxsub", "recur-user", "colon-octets", "wordlike"]),
+            # a line without any secret BEFORE this one that opens a block (what follows is indented under it): a secret is a
+            # secret whatever block it stands in
+            "header": srng.choice(HEADERS) if srng.random() < 0.15 else None,
             "sp_seed": srng.getrandbits(32),
         })
+    if case.get("plainctx"):
+        for st, ln in zip(struct, spec):
+            st.update({"indent": " ", "quote": ("", ""), "lead": "", "tail": "", "xsep": None, "special": None,
+                       "header": "key chain CORE-KC" if ln["form"].startswith("key") else srng.choice(HEADERS)})
     # a form that writes ':' right after the value (community-map NAME:100) makes ':' a terminator for every secret of the document
     if any("}:" in S.BY_ID[ln["form"]]["tpl"] for ln in spec):
         for st in struct:
@@ -208,7 +221,8 @@ def make_texts(case):
         vr = random.Random(vseed)
         secrets = {}
         lines_out = []
-        for ln, st in zip(spec, struct):
+        owner = []
+        for li, (ln, st) in enumerate(zip(spec, struct)):
             form = S.BY_ID[ln["form"]]
             slot_texts = []
             ufill = None
@@ -265,10 +279,16 @@ def make_texts(case):
                 ind = len(line) - len(line.lstrip())
                 line = line[:ind] + st["pad"] + line[ind:]
                 ctx_pad[0] = len(st["pad"])
+            if st["header"] and not case.get("straddle"):
+                ind = len(line) - len(line.lstrip())
+                lines_out.append(line[:ind] + st["header"] + (st["eol"] or eol_doc))
+                owner.append(li)
+                line = " " + line  # indented under it
             lines_out.append(line + st["eol"])
+            owner.append(li)
         texts.append("".join(lines_out))
         vals.append(secrets)
-    return texts, vals, [st["trail"] for st in struct]
+    return texts, vals, [st["trail"] for st in struct], owner
 
 
 _ALNUM = "abcdefghijklmnopqrstuvwxyzABCDEFGHIJKLMNOPQRSTUVWXYZ0123456789"
@@ -321,6 +341,10 @@ def _special_text(st, form, vi, vr, used):
         else:
             t = r.choice(S._NONHEX) + "".join(r.choice(_ALNUM) for _ in range(n - 1))
         cores = []
+    elif kind == "wordlike":
+        # valuation 1: a value that reads like configuration vocabulary; valuation 2: an ordinary random word
+        t = r.choice(WORDLIKE) if vi == 0 else None
+        cores = []
     elif kind == "colon-octets" and not form["plain"]:
         # AA:BB:CC... (a localized SNMPv3 key, a MAC-like token): still clear text to netconan, as is its twin with one non-hex letter
         n = random.Random(st["sp_seed"]).choice([2, 6, 16, 20])
@@ -351,7 +375,7 @@ def check_case(ctx, case):
     if case["kind"] != "doc":
         raise HarnessError("unknown kind")
     spec = case["spec"]
-    texts, vals, trails = make_texts(case)
+    texts, vals, trails, owner = make_texts(case)
     outs, logs = [], []
     fired = {"set": set(), "n": 0}
     kw = {"undo_ip_anon": True} if case["sseed"] % 5 == 0 else {}  # password removal is also due in an undo run (-u -p)
@@ -380,6 +404,7 @@ def check_case(ctx, case):
     o1, o2 = outs[0].split("\n"), outs[1].split("\n")
 
     def key_of(i, sid=None):
+        i = owner[i] if i < len(owner) else len(spec) - 1
         ln = spec[min(i, len(spec) - 1)]
         cls = ln["cls"][0]
         if sid is not None and sid in ln["ids"]:
@@ -416,7 +441,9 @@ def check_case(ctx, case):
                 ctx.violation(case, "secret-in-log", "core %r of secret #%d found in an INFO+ log record" % (core, sid))
                 bad = True
     # evidence: which variants were actually changed by the code
-    for i, ln in enumerate(spec):
+    last_of = {li: j for j, li in enumerate(owner)}  # the statement is the last line emitted for its spec entry
+    for li, ln in enumerate(spec):
+        i = last_of.get(li, li)
         if i < len(o1) and i < len(in_lines[0]) and o1[i] != in_lines[0][i]:
             ctx.distinct((ln["form"], tuple(ln["cls"]), in_lines[0][i][:3], SCRUB in o1[i]))
             ctx.setadd("forms_changed", ln["form"])
